@@ -1,9 +1,9 @@
-\* C09 thorough: 2 values, 2 writes per block, views re-opened after restart
+\* C09 thorough: 2 values, 2 views, 3 blocks
 CONSTANTS
   Stores = {"s1", "s2"}
-  NK = 2  NV = 2  NTK = 1  MaxVer = 3  MaxWrites = 2  MaxViews = 2
+  NK = 2  NV = 2  NTK = 1  MaxVer = 3  MaxWrites = 1  MaxViews = 2
   IterBounds <- FullOnly
-  Features = {"views", "close"}
+  Features = {"views"}
   FirstBlockFixed = FALSE
   RecordHist = TRUE
 INIT Init
